@@ -20,6 +20,7 @@ import (
 type reloadOp struct {
 	Op    string     `json:"op"`
 	Conf  [][]string `json:"conf"`
+	Zero  [][]string `json:"zero"` // [cluster, sub] pairs configured with weight 0
 	K     []string   `json:"k"`
 	Avail bool       `json:"avail"`
 	D     int        `json:"d"`
@@ -32,7 +33,7 @@ type reloadCase struct {
 
 var backAddr = map[string]string{"b1": "10.1.0.1", "b2": "10.1.0.2", "b3": "10.1.0.3", "b4": "10.1.0.4"}
 
-func writeConfs(dir string, conf [][]string, ver int) (string, string, error) {
+func writeConfs(dir string, conf [][]string, ver int, zero ...[]string) (string, string, error) {
 	gslb := map[string]map[string]int{}
 	table := map[string]map[string][]map[string]interface{}{}
 	for _, k := range conf {
@@ -42,6 +43,11 @@ func writeConfs(dir string, conf [][]string, ver int) (string, string, error) {
 			table[c] = map[string][]map[string]interface{}{}
 		}
 		gslb[c][s] = 1
+		for _, z := range zero {
+			if len(z) == 2 && z[0] == c && z[1] == s {
+				gslb[c][s] = 0
+			}
+		}
 		table[c][s] = append(table[c][s], map[string]interface{}{
 			"Name": c + "." + s + "." + b, "Addr": backAddr[b], "Port": 80, "Weight": 1})
 	}
@@ -145,7 +151,7 @@ func reloadRun() {
 		for i, op := range c.Ops {
 			switch op.Op {
 			case "init", "reload":
-				gf, tf, err := writeConfs(dir, op.Conf, i)
+				gf, tf, err := writeConfs(dir, op.Conf, i, op.Zero...)
 				if err != nil {
 					panic(err)
 				}
@@ -163,7 +169,11 @@ func reloadRun() {
 						lerr = tbl.BalTableReload(g, t)
 					}
 				})
-				ev := map[string]interface{}{"ev": op.Op, "cid": c.ID, "conf": op.Conf, "panic": p != ""}
+				zz := op.Zero
+				if zz == nil {
+					zz = [][]string{}
+				}
+				ev := map[string]interface{}{"ev": op.Op, "cid": c.ID, "conf": op.Conf, "zero": zz, "panic": p != ""}
 				if p != "" {
 					ev["snap"], ev["closed"], ev["detail"] = []snapObj{}, []int{}, p
 				} else {
